@@ -1,5 +1,6 @@
 import FordModel.Proto
 import FordModel.NamesCfg
+import FordModel.SourceOf
 namespace Ford
 open Proto Names
 
@@ -46,6 +47,36 @@ def c10Kind (s : Str) : Option Kind :=
   else if s == "modprocref".toList then some .modprocref
   else none
 
+def c10NatPairs : List Str → List (Nat × Nat)
+  | a :: b :: rest => (natOf a, natOf b) :: c10NatPairs rest
+  | _ => []
+
+def c10IdPaths : List Str → List (Nat × Str)
+  | a :: b :: rest => (natOf a, b) :: c10IdPaths rest
+  | _ => []
+
+def c10JoinIds : List Nat → Str
+  | [] => ['-']
+  | [a] => decimal a
+  | a :: b :: t => decimal a ++ ',' :: c10JoinIds (b :: t)
+
+/-- c10.srcof fuel np (child parent)^np nf (id path)^nf entity*  ->  ok (hierarchy source filename)* -/
+def c10SrcOf (args : List Str) : List Str :=
+  match args with
+  | fuel :: np :: rest =>
+    let n := natOf np
+    let ps := c10NatPairs (rest.take (2 * n))
+    match rest.drop (2 * n) with
+    | nf :: rest2 =>
+      let m := natOf nf
+      let paths := c10IdPaths (rest2.take (2 * m))
+      let ents := (rest2.drop (2 * m)).map natOf
+      "ok".toList :: (ents.map (fun e =>
+        [c10JoinIds (SourceOf.hierarchy ps (natOf fuel) e), decimal (SourceOf.sourceFile ps (natOf fuel) e),
+         (SourceOf.filenameOf paths ps (natOf fuel) e).getD "<none>".toList])).flatten
+    | _ => ["bad-request".toList]
+  | _ => ["bad-request".toList]
+
 def dispatchC10 : List Str → Option (List Str)
   | cmd :: args =>
     if cmd == "c10.run".toList then
@@ -88,6 +119,7 @@ def dispatchC10 : List Str → Option (List Str)
       match args with
       | [d, s] => some ("ok".toList :: urlOf d s :: outfileOf d s)
       | _ => some ["bad-request".toList]
+    else if cmd == "c10.srcof".toList then some (c10SrcOf args)
     else if cmd == "c10.src".toList then
       -- c10.src (path content)* -> ok (content served under basename path)*
       match c10Pairs args with
